@@ -1,30 +1,22 @@
-//! `vh`: drives the real reinterpretcat/vrp code on case files written by /verif/tools/verif.py.
-//! usage: vh <prop> <cases.jsonl> <out.jsonl>
+//! `vh` library: case loop shared by the per-property binaries (src/bin/cXX.rs).
+//! usage of each binary: <bin> <cases.jsonl> <out.jsonl>
 //! Every case is one JSON object with an "id"; every result line is {"id":..,"res":..} or
 //! {"id":..,"panic":"<message>"} (the call into /repo code runs under catch_unwind).
-mod props;
 pub mod util;
 
 use serde_json::{json, Value};
 use std::io::{BufRead, BufReader, BufWriter, Write};
 use std::panic::{catch_unwind, AssertUnwindSafe};
 
-fn main() {
+pub fn main_loop(runner: fn(&Value) -> Value) {
     let args: Vec<String> = std::env::args().collect();
-    if args.len() != 4 {
-        eprintln!("usage: vh <prop> <cases.jsonl> <out.jsonl>");
+    if args.len() != 3 {
+        eprintln!("usage: {} <cases.jsonl> <out.jsonl>", args[0]);
         std::process::exit(2);
     }
-    let runner = match props::lookup(&args[1]) {
-        Some(r) => r,
-        None => {
-            eprintln!("unknown prop {}", args[1]);
-            std::process::exit(2);
-        }
-    };
     std::panic::set_hook(Box::new(|_| {}));
-    let input = BufReader::new(std::fs::File::open(&args[2]).expect("cases file"));
-    let mut out = BufWriter::new(std::fs::File::create(&args[3]).expect("out file"));
+    let input = BufReader::new(std::fs::File::open(&args[1]).expect("cases file"));
+    let mut out = BufWriter::new(std::fs::File::create(&args[2]).expect("out file"));
     for line in input.lines() {
         let line = line.expect("line");
         if line.trim().is_empty() {
@@ -47,6 +39,6 @@ fn main() {
             }
         };
         writeln!(out, "{}", line).unwrap();
+        out.flush().unwrap();
     }
-    out.flush().unwrap();
 }
